@@ -126,7 +126,13 @@ static void bk_io(const char *who, int d, struct bk *b, long n)
 static void bk_decr(struct bk *b, long decr, int64_t tick)
 {
 	if (!b->on) return;
-	b->lo -= decr;
+	if (decr >= 0) b->lo -= decr;
+	else if (b->lo < b->burst) {
+		/* lower bound: a credit is only relied upon up to the burst (the repaired
+		 * ev_token_bucket_update_ clips a level above the maximum at its next — lazy — update,
+		 * which can come right after the credit) */
+		b->lo -= decr; if (b->lo > b->burst) b->lo = b->burst;
+	}
 	if (decr < 0) {
 		b->credit += -decr;
 		if (b->credit_tick < 0) { b->credit_tick = tick; b->since_credit = b->cur; }
@@ -226,7 +232,17 @@ static void progress_check(void)
 		}
 		MC_COUNT("progress_checks_pending");
 		if (vclock_us - M.cond_since[i][d] >= TICK_US) {
-			char key[96]; snprintf(key, sizeof key, "C22/%s/%s/stalled", M.member[i] ? (M.limited[i] ? "bev+group" : "group-member") : "bev", dname[d]);
+			char key[160];
+			struct bufferevent_private *p = BEV_UPCAST(bev[i]);
+			struct bufferevent_rate_limit *rl = p->rate_limiting;
+			/* signature of one specific defect (only used to key the failure): the implementation's own
+			 * bucket is positive, the direction is still suspended for bandwidth and waits for the
+			 * shared refill timer, which the other direction keeps re-arming */
+			int waits = rl && rl->cfg && ((d == R ? p->read_suspended : p->write_suspended) & BEV_SUSPEND_BW) &&
+			    (d == R ? rl->limit.read_limit : rl->limit.write_limit) > 0 &&
+			    event_pending(&rl->refill_bucket_event, EV_TIMEOUT, NULL);
+			snprintf(key, sizeof key, "C22/%s/%s/stalled%s", M.member[i] ? (M.limited[i] ? "bev+group" : "group-member") : "bev", dname[d],
+			    waits ? "/positive-bucket-waits-for-postponed-refill-timer" : "");
 			mc_fail(key, "bev %d: enabled, data available and budget remaining (own %ld, group %ld) since %lld us, no byte moved by %lld us",
 			    i, M.limited[i] ? own[i][d].lo : -1, M.member[i] ? gbk[d].lo : -1, (long long)M.cond_since[i][d], (long long)vclock_us);
 			dead = 1;
